@@ -78,7 +78,8 @@ def run_shim(shim, root, cmd, log=None, snap=None, kill=None, fail=None, timeout
     if kill is not None:
         a += ["-k", str(kill)]
     if fail is not None:
-        a += ["-f", ":".join(str(x) for x in fail)]
+        for f in (fail if isinstance(fail, list) else [fail]):
+            a += ["-f", ":".join(str(x) for x in f)]
     return vlib.sh(a + ["--"] + cmd, timeout=timeout, inp=inp)
 
 
